@@ -195,8 +195,10 @@ def check_C20(chk):
     build = vlib.build_repo("asan")
     vm = vlib.build_driver("vector_vm", build)
     scn = vlib.build_driver("scn_driver", build, libs=("-lcgreen", "-lxml2"))
-    chk.prove(["Properties_C20.v", "Properties_C20_buffers.v"])
-    chk.cov["trusted_base"] = TRUSTED + ["axioms: see coverage.print_assumptions"]
+    chk.prove(["Properties_C20.v", "Properties_C20_buffers.v", "Properties_Code_Xml.v", "Properties_Code_Percent.v", "Properties_Code_Tool.v"])
+    chk.cov["trusted_base"] = TRUSTED + [
+        "Properties_Code_Xml.v / Properties_Code_Percent.v / Properties_Code_Tool.v: escaped()/concat_escaped()/concat() of src/xml_reporter.c, double_all_percent_signs_in() with its helpers (src/message_formatting.c) and test_matches_pattern() with its helpers (tools/runner.c), translated whole on every run, are proved to run Fine on every text of any length - CLite's semantics is strict, so that is: no byte read or written outside a block, no use after free or realloc, no overlapping copy, no signed overflow; trusted in that link: the translator and CLite's models of the libc functions these functions call",
+        "axioms: see coverage.print_assumptions"]
     buffer_table(chk)
     step = 100
     try:
@@ -498,6 +500,22 @@ def gen_runs(chk, step):
                 root.name_override = nm("r")
             for rep in (reps if chk.tier == "thorough" or ln in (100, 1000, 1001, 5000) else [reps[(ln + len(which)) % len(reps)]]):
                 runs.append(("names len=%d on=%s" % (ln, which), root, rep, "forked", 2))
+    # what the names consist of: bytes above 0x7f (the scenario file is written as UTF-8, so every non-ASCII
+    # character becomes two such bytes), DEL, the characters the xml reporters escape - alone, mixed with
+    # ordinary characters, and many of them (whatever a reporter reserves per character is multiplied)
+    texts = ["\u00e9", "na\u00efve", "\u00ff" * 7, "\x7f", "<&>\"'", "\u00e9" * 200, "a\u00e9" * 60 + "<", "\u20ac" * 40, "&" * 300]
+    if chk.tier == "quick":
+        texts = [texts[i] for i in (0, 2, 3, 4, 5, 6)]
+    for k, txt in enumerate(texts):
+        for which in ("suite", "test"):
+            tid[0] = 0
+            t1, t2 = test(txt if which == "test" else None), test()
+            sub = L.Suite(1, children=[t1])
+            if which == "suite":
+                sub.name_override = txt
+            root = L.Suite(0, children=[sub, t2])
+            for rep in (["xml", "xmlp", "libxml", "libxmlp", "text", "cute"] if chk.tier == "thorough" or k in (0, 4, 5) else ["xml", "xmlp", "libxmlp"]):
+                runs.append(("namebytes #%d on=%s" % (k, which), root, rep, "forked", 2))
     return runs
 
 
